@@ -16,31 +16,55 @@ NEXT = "<std::iter::Peekable<I> as std::iter::Iterator>::next"
 
 # ---- R1: one reader ---------------------------------------------------------------------------------------------
 def r1_one_reader(facts, rep):
-    rep.rule("C07-R1", "one reader: the NUMBER and PERCENTAGE arms of eval::eval parse exactly the source text of the NUMBER node "
-                       "with str::parse::<Rational> (= Rational::from_str); no other conversion of text to a Rational exists in the "
-                       "crate (the only other text-to-number conversion is str::parse::<i32> for unit powers)")
+    rep.rule("C07-R1", "one reader on exactly the literal's text: summaries of eval::eval on a NUMBER node and on a PERCENTAGE node "
+                       "(scripted tree, helpers followed): the value is str::parse::<Rational> (= Rational::from_str) of exactly the "
+                       "source text under the NUMBER node's span (divided by 100 for a percentage) and a failed parse is an error; no "
+                       "other conversion of text to a Rational exists in the evaluator (the only other text-to-number conversion is "
+                       "str::parse::<i32> for unit powers)")
+    from . import evalnode, evalops
     sites = census(facts, lambda n: n == "core::str::<impl str>::parse")
     by = {}
     for b, bid, t, sp, name in sites:
         g = t["callee"].get("generics", "")
         ty = "Rational" if "rational::Rational" in g else ("i32" if "i32" in g else g)
         by.setdefault((b.path, ty), []).append((b, bid, t, sp))
+    n_rat = 0
     for (path, ty), lst in sorted(by.items()):
-        want = (path == "eval::eval" and ty == "Rational") or (path == "eval::unit" and ty == "i32")
-        rep.ob("C07-R1", "parse:%s:%s" % (path, ty), want, "%d str::parse::<%s> call(s) in %s" % (len(lst), ty, path), lst[0][0].site(lst[0][3]))
-    ev = [x for (path, ty), lst in by.items() if path == "eval::eval" and ty == "Rational" for x in lst]
-    rep.floor("C07-R1", "literal parses in eval::eval", len(ev), 2)
-    for b, bid, t, sp in ev:
-        ls = flow.slice_back(b, t["args"][0])
-        src = {l[1] for l in ls if l[0] == "call"}
-        okk = src == {"query::Query::<'a>::source"}
-        span_src = set()
-        for l in ls:
-            if l[0] == "call":
-                t2 = b.blocks[l[2]]["term"]["t"]
-                span_src |= {x[1] for x in flow.slice_back(b, t2["args"][1]) if x[0] == "call"}
-        rep.ob("C07-R1", "literal-text#%d" % sp["line"], okk and span_src == {"syntree::Node::<'a, T, I, W>::span"},
-               "the literal text is %s of %s" % (sorted(src), sorted(span_src)), b.site(sp), sample={"source": sorted(src)})
+        in_eval = path.startswith("eval::") and not path.startswith("eval::builtin")
+        want = in_eval and ty in ("Rational", "i32")
+        n_rat += len(lst) if ty == "Rational" else 0
+        rep.ob("C07-R1", "parse:%s:%s" % ("eval" if in_eval else path, ty), want, "%d str::parse::<%s> call(s) in %s" % (len(lst), ty, path), lst[0][0].site(lst[0][3]))
+    rep.floor("C07-R1", "literal parses in the evaluator", n_rat, 1)
+    for label, tree, span in (("NUMBER", {0: {"kind": "NUMBER", "children": []}}, "span0"),
+                              ("PERCENTAGE", {0: {"kind": "PERCENTAGE", "children": [1, 2]}, 1: {"kind": "NUMBER", "children": []},
+                                              2: {"kind": "PERCENTAGE", "token": True}}, "span1")):
+        try:
+            dom, it, outs = evalnode.run_eval(facts, tree)
+        except core.Undecided as e:
+            rep.ob("C07-R1", "literal-text:%s" % label, False, "undecided: %s" % e)
+            continue
+        bad = []
+        n_ok = n_err = 0
+        text = T("text", Sym(span))
+        for o in outs:
+            if o.kind != "ret":
+                bad.append("%s %s" % (o.kind, o.value))
+                continue
+            u = evalops.unpack(o.value)
+            log = dom.log(o.store)
+            if u[0] == "ok":
+                n_ok += 1
+                if repr(T("parse", text)) not in repr(u[1]) or repr(u[1]).count("parse(") != 1:
+                    bad.append("the value %r is not read from the NUMBER node's own text %r" % (u[1], text))
+                if any(e[0] == "parse-failed" for e in log):
+                    bad.append("a failed parse still yields a value")
+            elif u[0] == "err":
+                n_err += 1
+            else:
+                bad.append("result %r" % (o.value,))
+        rep.ob("C07-R1", "literal-text:%s" % label, not bad and n_ok >= 1 and n_err >= 1, "; ".join(bad[:3]) if bad else
+               "%s: the literal text is the source under the NUMBER node's span, parsed once; a failed parse is an error" % label,
+               facts.fn("eval::eval").site(), sample={"node": label, "ok_paths": n_ok})
     others = census(facts, lambda n: n in (FROM_STR, "rational::Rational::from_f64") or n.endswith("Num>::from_str_radix") or "parse_bytes" in n)
     for b, bid, t, sp, name in others:
         rep.ob("C07-R1", "other-reader:%s:%s" % (b.path, name.split("::")[-1]), b.path.startswith("eval::builtin::"),
